@@ -51,6 +51,7 @@ type runner struct {
 	obs     []any
 	fail    string // first Go-side failure
 	bound   bool   // array part reached MaxArrayIndex-1 (C09-2 class)
+	stop    bool   // the rest of the history is not modelled (Go-side-only step ran)
 	kinds   map[string]bool
 	delPres int
 }
@@ -547,6 +548,34 @@ func (r *runner) exec(s *Step, g *lib.Rand) {
 		}
 		obs = raised
 		coq = fmt.Sprintf("SGuard %s %s", ck, lib.CoqBool(raised))
+	case "dumprm":
+		// ForEach whose callback removes an element once (position s.I counted from the end):
+		// the callback must only ever see Lua values that are in the table at that moment.
+		// Checked on the Go side only; the history ends here (SStop).
+		done := false
+		nth := 0
+		t.ForEach(func(k, v lua.LValue) {
+			nth++
+			if v == nil || v == lua.LNil || k == nil || k == lua.LNil {
+				r.failf("ForEach callback got a nil key or value (%v, %v)", k, v)
+				return
+			}
+			if cur := t.RawGet(k); cur != v {
+				r.failf("ForEach delivered (%v, %v) but the table holds %v there now", k, v, cur)
+			}
+			if !done && int64(nth) >= s.I {
+				done = true
+				if m := t.Len(); m > 0 {
+					pos := m
+					if s.How == "middle" && m > 1 {
+						pos = 1 + int(s.I)%m
+					}
+					t.Remove(pos)
+				}
+			}
+		})
+		r.stop = true
+		coq = "SStop"
 	case "trav":
 		type tstep struct {
 			K, V tv.V
@@ -571,6 +600,12 @@ func (r *runner) exec(s *Step, g *lib.Rand) {
 				us = s.Upd[n]
 			}
 			for _, u := range us {
+				if u.K.T == "remove" { // table.remove(t, pos): only assigns existing fields
+					if _, err := r.callLib("table", "remove", t, lua.LNumber(u.V.Float())); err != nil {
+						r.failf("table.remove during traversal raised: %v", err)
+					}
+					continue
+				}
 				if g != nil && g.Chance(50) {
 					r.store("lua.index", u.K, u.V)
 				} else {
@@ -591,7 +626,15 @@ func (r *runner) exec(s *Step, g *lib.Rand) {
 		}
 		items := make([]string, len(tr))
 		for i, e := range tr {
-			items[i] = fmt.Sprintf("(%s, %s, %s)", e.K.CoqKey(), e.V.CoqVal(), tv.CoqKVs(e.U))
+			us := make([]string, len(e.U))
+			for j, u := range e.U {
+				if u.K.T == "remove" {
+					us[j] = "(URemove " + lib.CoqZ(int64(u.V.Float())) + ")"
+				} else {
+					us[j] = "(USet " + u.K.CoqKey() + " " + u.V.CoqVal() + ")"
+				}
+			}
+			items[i] = fmt.Sprintf("(%s, %s, %s)", e.K.CoqKey(), e.V.CoqVal(), lib.CoqList(us))
 		}
 		obs = tr
 		coq = "STrav " + lib.CoqList(items)
@@ -611,6 +654,17 @@ func (r *runner) genUpdates(g *lib.Rand, cur tv.V) []tv.KV {
 	n := g.Pick(45, 35, 15, 5)
 	if n == 0 {
 		return nil
+	}
+	if g.Chance(22) {
+		// table.remove: the last element (70 %) or one in the middle; nothing else in this round,
+		// the choice of "existing" keys below relies on the dump taken before
+		if m := r.t.Len(); m > 0 {
+			pos := m
+			if g.Chance(30) {
+				pos = g.Range(1, m)
+			}
+			return []tv.KV{{K: tv.V{T: "remove"}, V: tv.Int(int64(pos))}}
+		}
 	}
 	present := r.dump()
 	sortKVs(present)
@@ -643,7 +697,7 @@ func runCase(w *lib.Writer, in *Input, class string, g *lib.Rand, plan func(r *r
 	if plan != nil {
 		for {
 			s := plan(r, g)
-			if s == nil || r.fail != "" {
+			if s == nil || r.fail != "" || r.stop {
 				break
 			}
 			r.exec(s, g)
@@ -652,7 +706,7 @@ func runCase(w *lib.Writer, in *Input, class string, g *lib.Rand, plan func(r *r
 	} else {
 		for i := range in.Steps {
 			r.exec(&in.Steps[i], nil)
-			if r.fail != "" {
+			if r.fail != "" || r.stop {
 				break
 			}
 		}
